@@ -74,10 +74,6 @@ impl Mat {
         f
     }
 
-    pub fn wildcard_bg(&self) -> bool {
-        self.bg_counts[4] != 0
-    }
-
     /// Sum over rows of (max - min) of the finite non-wildcard cells.
     pub fn range_sum(&self) -> f64 {
         self.rows
@@ -126,6 +122,19 @@ impl Mat {
     pub fn scoring(&self) -> ScoringMatrix<Dna> {
         let data = DenseMatrix::<f32, U5>::from_rows(self.rows.iter().map(|r| &r[..]).collect::<Vec<_>>());
         ScoringMatrix::new(self.background(), data)
+    }
+
+    /// The rows as a Rust array literal (for the `rust_repro` snippets).
+    pub fn rust_rows(&self) -> String {
+        let rows: Vec<String> = self
+            .rows
+            .iter()
+            .map(|r| {
+                let cells: Vec<String> = r.iter().map(|x| if x.is_finite() { format!("{:?}f32", x) } else { "f32::NEG_INFINITY".to_string() }).collect();
+                format!("[{}]", cells.join(", "))
+            })
+            .collect();
+        format!("[{}]", rows.join(", "))
     }
 
     pub fn json(&self) -> Value {
